@@ -278,10 +278,13 @@ def run_cfg_mirror(prog):
 VARS_NONE_OK = {
     # function -> (number of atom/list calls without the variable table, why)
     CFG + "chord::parse_defchordv2": (1, "the top-level keyword `defchordsv2` itself"),
-    CFG + "parse_layer_indexes": (1, "tells `(deflayer (name opts..))` from an accidental parenthesis; the name is then read with the table"),
-    CFG + "zippychord::inner::parse_zippy_inner": (2, "the top-level keyword, and the single character of an output-character-mapping pair "
-                                                      "(a literal character, documented as such)"),
+    CFG + "zippychord::inner::parse_zippy_inner": (1, "the top-level keyword `defzippy` itself"),
 }
+# An audit of the first version of this table found two of its four reasons wrong: the parentheses check of
+# parse_layer_indexes and the character of a zippychord output-character-mapping did read `$name` literally where the
+# literal and the variable are accepted differently (repaired in /repo, e56e09f), and parse_layer_opts - which has no
+# `vars` parameter and is therefore outside this rule's view - stored `$ico` as a layer icon. Known hole: closures that
+# capture the ParserState are not looked at (their own parameters do not include it).
 
 
 def run_vars_passed(prog):
@@ -313,7 +316,6 @@ def run_vars_passed(prog):
                 with_sites += 1
         if not none_sites and not with_sites:
             continue
-        allowed = VARS_NONE_OK.get(f.norm.split("::{closure")[0], (0, ""))[0] if "{closure" not in f.norm else 0
         allowed = VARS_NONE_OK.get(f.norm, (0, ""))[0]
         ok = len(none_sites) <= allowed
         key = f.norm.split("cfg::")[-1]
